@@ -138,7 +138,7 @@ Proof.
   eexists. eexists. eexists. split; [reflexivity|]. split; [reflexivity|]. split; [exact Hm'|].
   (* the shape of ms' *)
   unfold place in Hp. destruct (Nat.eqb_spec idx (length ms)) as [E|E].
-  - injection Hp as <-. rewrite app_length. simpl. split.
+  - injection Hp as <-. unfold Js, Jw in *. rewrite !app_length. cbn [length]. split.
     + right. destruct HJ as [[H1 H2]|[H1 H2]]; [|lia]. split; [lia|]. destruct H2; lia.
     + split; [lia|]. intros o2 [Hc12 _] Ht2 j Hj. rewrite app_length in Hj. simpl in Hj.
       destruct (Nat.eq_dec j (length ms)) as [->|Hne].
@@ -146,7 +146,7 @@ Proof.
       * apply free_at_after_append. apply Ht2. lia.
   - destruct (nth_error ms idx) as [m|] eqn:En; [|discriminate].
     destruct (with_operation m o) as [m'|] eqn:Ew; [|discriminate]. injection Hp as <-.
-    apply with_operation_eq in Ew. subst m'. rewrite replace_nth_length.
+    apply with_operation_eq in Ew. subst m'. unfold Js, Jw in *. rewrite !replace_nth_length.
     assert (Hlt : (idx < length ms)%nat) by (apply nth_error_Some; congruence). split.
     + destruct HJ as [[H1 H2]|[H1 H2]]; [left|right]; split; try lia.
     + split; [lia|]. intros o2 [Hc12 _] Ht2 j Hj. rewrite replace_nth_length in Hj.
@@ -172,4 +172,79 @@ Proof.
     exists ms2, pc2, kc2, mc2, maxp2. split; [exact G1|]. split; [exact G2|]. split; [exact Hm2|].
     split; [|intros H; discriminate]. intros _. destruct r as [|o2 r2]; [|apply HJ2; discriminate].
     destruct (He2 eq_refl) as [-> ->]. exact HJ1.
+Qed.
+
+Lemma can_add_end (ms : list moment) o : can_add_op_at ms (length ms) o = true.
+Proof. rewrite can_add_spec. replace (nth_error ms (length ms)) with (@None moment); [reflexivity|]. symmetry. apply nth_error_None. lia. Qed.
+
+Lemma place_items_app b1 : forall st b2,
+  place_items st (b1 ++ b2) = match place_items st b1 with (st1, None) => place_items st1 b2 | bad => bad end.
+Proof.
+  induction b1 as [|it r IH]; intros st b2; cbn [app place_items]; [reflexivity|].
+  destruct (place_item st it) as [st1 [e|]]; [reflexivity|apply IH].
+Qed.
+
+(* one batch: the cached placement of its items and the uncached do_batch started at the end agree *)
+Lemma do_batch_sim b ms pc kc mc maxp :
+  batch_ok b -> cache_matches pc ms ->
+  exists ms' pc' kc' mc' maxp',
+    place_items (mki ms (Some pc) kc EARLIEST mc) b = (mki ms' (Some pc') kc' EARLIEST mc', None) /\
+    do_batch (mki ms None (length ms) EARLIEST maxp) b = (mki ms' None (length ms') EARLIEST maxp', None) /\
+    cache_matches pc' ms'.
+Proof.
+  intros Hb Hm. destruct Hb as [[m ->]|[ops [Hne [Ho Hp]]]].
+  - (* a Moment *)
+    destruct (cache_append pc (IMom m)) as [idx pc'] eqn:Ea.
+    destruct (cache_place_ok pc ms (IMom m) idx pc' Hm Ea) as [ms' [Hpl Hm']].
+    assert (Hidx : idx = length ms).
+    { unfold cache_append in Ea. injection Ea as <- _. cbn [gea_index]. destruct Hm as [Hl _]. exact Hl. }
+    subst idx. unfold place in Hpl. injection Hpl as <-.
+    exists (insert_at (length ms) m ms), pc'. unfold do_batch, needs_blank. cbn [i_cache i_ms i_k i_s i_maxp place_items].
+    unfold place_item, determine. cbn [i_cache i_ms i_k i_s i_maxp]. rewrite Ea. unfold place.
+    eexists. eexists. eexists. split; [reflexivity|]. split; [|exact Hm'].
+    cbn [i_cache i_ms i_k i_s i_maxp]. rewrite insert_at_length_S. repeat f_equal. lia.
+  - apply ops_of_batch_inv in Ho. subst b.
+    destruct (place_items_sim ops ms pc (length ms) 0 kc mc Hm (le_n _) Hp) as [ms' [pc' [kc' [mc' [maxp' [G1 [G2 [Hm' [HJ _]]]]]]]]].
+    + apply Forall_forall. intros o _ j Hj. lia.
+    + left. split; [reflexivity|left; reflexivity].
+    + exists ms', pc', kc', mc'. eexists. split; [exact G1|]. split; [|exact Hm'].
+      unfold do_batch.
+      assert (Hnb : needs_blank (mki ms None (length ms) EARLIEST maxp) (map IOp ops) = false).
+      { unfold needs_blank. cbn [i_cache i_s i_ms i_k]. destruct ops as [|o0 r0]; [reflexivity|]. cbn [map].
+        change (IOp o0 :: map IOp r0) with (map IOp (o0 :: r0)). rewrite forallb_map_IOp.
+        replace (forallb _ (o0 :: r0)) with true; [reflexivity|]. symmetry. apply forallb_forall. intros o _.
+        rewrite can_add_end. reflexivity. }
+      rewrite Hnb. cbn [i_ms i_cache i_k i_s i_maxp]. rewrite G2. cbn [i_ms i_cache i_k i_s i_maxp].
+      specialize (HJ Hne). repeat f_equal. unfold Js in HJ. lia.
+Qed.
+
+Lemma do_batches_sim bs : forall ms pc kc mc maxp,
+  Forall batch_ok bs -> cache_matches pc ms ->
+  exists ms' pc' kc' mc' maxp',
+    place_items (mki ms (Some pc) kc EARLIEST mc) (concat bs) = (mki ms' (Some pc') kc' EARLIEST mc', None) /\
+    do_batches (mki ms None (length ms) EARLIEST maxp) bs = (mki ms' None (length ms') EARLIEST maxp', None).
+Proof.
+  induction bs as [|b r IH]; intros ms pc kc mc maxp Hb Hm; cbn [concat do_batches].
+  - exists ms, pc, kc, mc, maxp. split; reflexivity.
+  - inversion Hb; subst.
+    destruct (do_batch_sim b ms pc kc mc maxp H1 Hm) as [ms1 [pc1 [kc1 [mc1 [maxp1 [G1 [G2 Hm1]]]]]]].
+    rewrite place_items_app, G1, G2.
+    destruct (IH ms1 pc1 kc1 mc1 maxp1 H2 Hm1) as [ms2 [pc2 [kc2 [mc2 [maxp2 [K1 K2]]]]]].
+    exists ms2, pc2, kc2, mc2, maxp2. split; assumption.
+Qed.
+
+(* ==== D3, second half: with a correct cache, append builds what the uncached insert at the end builds ==== *)
+Theorem cached_append_eq_uncached c its pc :
+  cache c = Some pc -> cache_matches pc (moms c) ->
+  moms (fst (append c its EARLIEST)) = moms (fst (append (mkc (moms c) None (sm c)) its EARLIEST)).
+Proof.
+  intros Hc Hm. unfold append, insert. cbn [moms cache sm].
+  assert (Hk : clamp_index (Z.of_nat (length (moms c))) (length (moms c)) = length (moms c)).
+  { unfold clamp_index. destruct (0 <=? Z.of_nat (length (moms c))) eqn:E; lia. }
+  rewrite Hk, Nat.eqb_refl, Hc. cbn [strategy_eqb negb orb do_batches].
+  destruct (do_batches_sim (group_into_moment_compatible its) (moms c) pc (length (moms c)) 0 0 (group_batches_ok its) Hm)
+    as [ms' [pc' [kc' [mc' [maxp' [G1 G2]]]]]].
+  rewrite group_concat in G1. rewrite G2.
+  unfold do_batch. assert (Hnb : needs_blank (mki (moms c) (Some pc) (length (moms c)) EARLIEST 0) its = false) by reflexivity.
+  rewrite Hnb. cbn [i_ms i_cache i_k i_s i_maxp]. rewrite G1. reflexivity.
 Qed.
